@@ -482,6 +482,20 @@ def _tb_entries(exc):
   return out
 
 
+def _tb_gaps(exc):
+  """Consecutive traceback entries must be caller -> callee, as unwinding produces them; the
+  one re-raise Gin performs (`raise proxy.with_traceback(tb)` inside the augmenting helper)
+  splices the saved traceback, whose first entry is the frame that called the helper."""
+  gaps, tb = [], exc.__traceback__
+  while tb is not None and tb.tb_next is not None:
+    a, b = tb.tb_frame, tb.tb_next.tb_frame
+    if b.f_back is not a and not (
+        a.f_code.co_name == 'augment_exception_message_and_reraise' and b is a.f_back):
+      gaps.append('%s -> %s' % (a.f_code.co_name, b.f_code.co_name))
+    tb = tb.tb_next
+  return gaps
+
+
 def _short(v):
   r = repr(v)
   return r if len(r) <= 70 else r[:67] + '...'
@@ -599,6 +613,10 @@ def _compare(case, orig, before, text, fam, caught, names, exact):
   if got[-1:] != [(_raise_it.__code__, _RAISE_LINE)] or got[-len(want):] != want:
     fail('traceback', ['%s:%d' % (c.co_name, l) for c, l in want[-3:]],
          ['%s:%d' % (c.co_name, l) for c, l in got[-3:]], 'mode=' + case['mode'])
+  gaps = _tb_gaps(caught)
+  if gaps:
+    fail('traceback', 'every frame between the caller and the raise site', gaps[:3],
+         'frames missing, mode=' + case['mode'])
   # data
   bad = {}
   for n, v in before.items():
